@@ -1,5 +1,5 @@
 import Okane.Lemmas.C13Perm
-import Okane.Lemmas.C13CmdQuery
+import Okane.Lemmas.C13CmdFine
 /-!
 # C13 — same input, same output: runs are deterministic
 
@@ -34,7 +34,9 @@ maps even when `check_balance` named the sides of an implied exchange in opposit
 `Ledger::balance` / `Ledger::eval` return the same balance / amount or the same error (`C13_balance_query`,
 `C13_eval_query`) provided the neighbour order of `compute_price_table` does not depend on the layout of the inner map
 (`OrdOK`: true of the sorted order, false of the raw hash order: `ordSorted_ok`, `ordId_not_ok`), hence
-`C13_balance_exchange_cmd`, `C13_eval_cmd`.
+`C13_balance_exchange_cmd`, `C13_eval_cmd`.  The `…_fine` versions quantify over re-layouts after every posting as
+well (`processScr2`, `C13_process_relayout2`).  Not covered: `format`, `import`, and the loader / parser / price-db
+reader in front of `process` (their statements stay `Prop`s).
 -/
 set_option linter.unusedSectionVars false
 set_option linter.unusedSimpArgs false
@@ -388,7 +390,10 @@ in the orders `π`.  In the Rust every map is a `HashMap` with a per-process ran
 complete (amount arithmetic, `check_balance`, the printed form of amounts, the `balance` lines, the `accounts` list,
 error texts carrying amounts); for whole commands the supporting models (loader, parser, price repository, importer)
 are other properties' models, so the statements are recorded here as `Prop`s and the real binary is *observed*
-(N fresh processes per input, byte-identical stdout / stderr / exit status) by the check's process-level stream. -/
+(N fresh processes per input, byte-identical stdout / stderr / exit status) by the check's process-level stream.
+Section Commands below proves the instances of `C13_balance`, `C13_balance_exchange`, `C13_accounts`, `C13_register`
+and `C13_eval` in which the command is the book-keeping model followed by the report model and the orders are the
+layout histories of all its hash maps. -/
 section EndToEnd
 variable {Orders Input Output : Type}
 
@@ -501,8 +506,15 @@ theorem C13_balance_cmd {leA leK : String → String → Bool} (hoA : KeyOrder l
       (fun π es => balanceCmd leA leK showAcct showEntry r π.1 es) :=
   fun π₁ π₂ es => balanceCmd_det hoA hoK showAcct showEntry r π₁.2 π₂.2 es
 
-/-- **C13_accounts_cmd** -/
-theorem C13_accounts_cmd {leA leK : String → String → Bool} (hoA : KeyOrder leA) (hoK : KeyOrder leK)
+/-- **C13_accounts_cmd**: `okane accounts` (`report::accounts`: intern the account of every posting, print
+`all_accounts()` — no book-keeping) as a function of the layout history of the intern store. -/
+theorem C13_accounts_cmd {leA : String → String → Bool} (hoA : KeyOrder leA) :
+    C13_accounts (Orders := { σ : Nat → Store → Store // StoreRelayout σ }) (Input := List Entry)
+      (fun σ es => accountsScanCmd leA σ.1 es) :=
+  fun σ₁ σ₂ es => accountsScanCmd_det hoA σ₁.2 σ₂.2 es
+
+/-- the account list of the *processed* ledger (`ctx.all_accounts()` after `process`, declarations included). -/
+theorem C13_accounts_processed_cmd {leA leK : String → String → Bool} (hoA : KeyOrder leA) (hoK : KeyOrder leK)
     (showEntry : String → Rat → String) :
     C13_accounts (Orders := { π : Nat → ProcState → ProcState // Relayout π }) (Input := List Entry)
       (fun π es => accountsCmd leA leK showEntry π.1 es) :=
@@ -548,6 +560,15 @@ example : balanceCmd (fun a b => decide (a ≤ b)) (fun a b => decide (a ≤ b))
 example : registerCmd (fun a b => decide (a ≤ b)) id showNat' (some "Assets:Bank") πid.1 exLedger =
     registerCmd (fun a b => decide (a ≤ b)) id showNat' (some "Assets:Bank") πrev.1 exLedger :=
   registerCmd_det (π₁ := πid.1) (π₂ := πrev.1) keyOrder_string id showNat' _ πid.2 πrev.2 exLedger
+
+example : accountsScanCmd (fun a b => decide (a ≤ b)) (fun _ s => s) exLedger =
+    accountsScanCmd (fun a b => decide (a ≤ b)) (fun _ s => ⟨s.recs.reverse⟩) exLedger :=
+  accountsScanCmd_det keyOrder_string storeRelayout_id storeRelayout_rev exLedger
+
+/-- the two scans really end with different record lists (4 accounts). -/
+example : decide ((accountsScr (fun _ s => s) {} 0 exLedger).recs ≠
+    (accountsScr (fun _ s => ⟨s.recs.reverse⟩) {} 0 exLedger).recs ∧
+    (accountsScr (fun _ s => s) {} 0 exLedger).recs.length = 4) = true := by decide +kernel
 
 example : accountsCmd (fun a b => decide (a ≤ b)) (fun a b => decide (a ≤ b)) showNat' πid.1 exLedger =
     accountsCmd (fun a b => decide (a ≤ b)) (fun a b => decide (a ≤ b)) showNat' πrev.1 exLedger :=
@@ -664,6 +685,71 @@ example : evalCmd cfgSorted (fun a b => decide (a ≤ b)) (fun a b => decide (a 
     evalCmd cfgSorted (fun a b => decide (a ≤ b)) (fun a b => decide (a ≤ b)) showNat' πrev.1
       ⟨exLedgerX, [], .amt ⟨false, 3, 0, none⟩ "ACME", ⟨2024, 2, 1⟩, some "USD"⟩ :=
   evalCmd_det (π₁ := πid.1) (π₂ := πrev.1) ordSorted_string_ok keyOrder_string keyOrder_string showNat' πid.2 πrev.2 _
+
+/-! ### re-layouts between postings
+
+`processScr2 π ρ`: besides the accumulator after every entry, the context and the state of the posting loop of
+`add_transaction` (running residual, account balances, intern stores) are laid out afresh after every posting. -/
+
+/-- the layout histories of a run: per entry and per posting. -/
+abbrev Layouts := { p : (Nat → ProcState → ProcState) × (Nat → Nat → LoopSt → LoopSt) //
+                    Relayout p.1 ∧ ∀ i, Relayout2 (p.2 i) }
+
+/-- **C13_process_relayout2.**  Book-keeping does not depend on the layout history at entry or posting granularity. -/
+theorem C13_process_relayout2 (l₁ l₂ : Layouts) (es : List Entry) :
+    ORel PErrEq ProcEq (processScr2 l₁.1.1 l₁.1.2 {} 0 es) (processScr2 l₂.1.1 l₂.1.2 {} 0 es) :=
+  processScr2_meq l₁.2.1 l₂.2.1 l₁.2.2 l₂.2.2 es ProcEq.init 0
+
+/-- **C13_balance_cmd_fine / C13_accounts_processed_cmd_fine / C13_register_cmd_fine / C13_balance_exchange_cmd_fine /
+C13_eval_cmd_fine**: the recorded end-to-end statements with `Layouts` as the orders. -/
+theorem C13_balance_cmd_fine {leA leK : String → String → Bool} (hoA : KeyOrder leA) (hoK : KeyOrder leK)
+    (showAcct : String → String) (showEntry : String → Rat → String) (r : DateRange) :
+    C13_balance (Orders := Layouts) (Input := List Entry)
+      (fun l es => cmdText (bkErrText leK showEntry) (balanceLines leA leK showAcct showEntry r)
+        (processScr2 l.1.1 l.1.2 {} 0 es)) :=
+  fun l₁ l₂ es => balanceCmd_det2 hoA hoK showAcct showEntry r l₁.2.1 l₂.2.1 l₁.2.2 l₂.2.2 es
+
+theorem C13_accounts_processed_cmd_fine {leA leK : String → String → Bool} (hoA : KeyOrder leA) (hoK : KeyOrder leK)
+    (showEntry : String → Rat → String) :
+    C13_accounts (Orders := Layouts) (Input := List Entry)
+      (fun l es => cmdText (bkErrText leK showEntry) (accountsLines leA) (processScr2 l.1.1 l.1.2 {} 0 es)) :=
+  fun l₁ l₂ es => accountsCmd_det2 hoA hoK showEntry l₁.2.1 l₂.2.1 l₁.2.2 l₂.2.2 es
+
+theorem C13_register_cmd_fine {leK : String → String → Bool} (hoK : KeyOrder leK) (showAcct : String → String)
+    (showEntry : String → Rat → String) (acct : Option String) :
+    C13_register (Orders := Layouts) (Input := List Entry)
+      (fun l es => cmdText (bkErrText leK showEntry) (registerLines leK showAcct showEntry acct)
+        (processScr2 l.1.1 l.1.2 {} 0 es)) :=
+  fun l₁ l₂ es => registerCmd_det2 hoK showAcct showEntry acct l₁.2.1 l₂.2.1 l₁.2.2 l₂.2.2 es
+
+theorem C13_balance_exchange_cmd_fine {cfg : Cfg String} (hord : OrdOK cfg.ord) {leA leK : String → String → Bool}
+    (hoA : KeyOrder leA) (hoK : KeyOrder leK) (showAcct : String → String) (showEntry : String → Rat → String) :
+    C13_balance_exchange (Orders := Layouts) (Input := List Entry × List (PriceEvent String) × BalOpts)
+      (fun l x => balanceXOut cfg leA leK showAcct showEntry x.2.1 x.2.2 (processScr2 l.1.1 l.1.2 {} 0 x.1)) :=
+  fun l₁ l₂ x => balanceXCmd_det2 hord hoA hoK showAcct showEntry x.2.1 x.2.2 l₁.2.1 l₂.2.1 l₁.2.2 l₂.2.2 x.1
+
+theorem C13_eval_cmd_fine {cfg : Cfg String} (hord : OrdOK cfg.ord) {leA leK : String → String → Bool}
+    (hoA : KeyOrder leA) (hoK : KeyOrder leK) (showEntry : String → Rat → String) :
+    C13_eval (Orders := Layouts) (Input := EvalIn)
+      (fun l x => evalOut cfg leA leK showEntry x.db x.expr x.date x.exchange (processScr2 l.1.1 l.1.2 {} 0 x.entries)) :=
+  fun l₁ l₂ x => evalCmd_det2 hord hoA hoK showEntry x.db x.expr x.date x.exchange l₁.2.1 l₂.2.1 l₁.2.2 l₂.2.2 x.entries
+
+/-! non-vacuity: the unbalanced three-commodity transaction, with and without reversal after every posting: the
+residuals carried by the two errors are different lists (`USD, EUR, CHF` resp. another order), the message is the same. -/
+def lid : Layouts := ⟨(fun _ st => st, fun _ _ p => p), relayout_id, fun _ => relayout2_id⟩
+def lrev : Layouts := ⟨(fun _ st => relayoutRev st, fun _ _ p => relayoutRev2 p), relayout_rev, fun _ => relayout2_rev⟩
+
+example : (match processScr2 lid.1.1 lid.1.2 {} 0 exBad, processScr2 lrev.1.1 lrev.1.2 {} 0 exBad with
+    | .err (0, .unbalanced r), .err (0, .unbalanced r') =>
+      decide (r.map Prod.fst = ["USD", "EUR", "CHF"] ∧ r'.map Prod.fst ≠ r.map Prod.fst ∧ r'.length = 3)
+    | _, _ => false) = true := by decide +kernel
+
+example : cmdText (bkErrText (fun a b => decide (a ≤ b)) showNat') (balanceLines (fun a b => decide (a ≤ b))
+      (fun a b => decide (a ≤ b)) id showNat' {}) (processScr2 lid.1.1 lid.1.2 {} 0 exBad) =
+    cmdText (bkErrText (fun a b => decide (a ≤ b)) showNat') (balanceLines (fun a b => decide (a ≤ b))
+      (fun a b => decide (a ≤ b)) id showNat' {}) (processScr2 lrev.1.1 lrev.1.2 {} 0 exBad) :=
+  balanceCmd_det2 (π₁ := lid.1.1) (π₂ := lrev.1.1) (ρ₁ := lid.1.2) (ρ₂ := lrev.1.2) keyOrder_string keyOrder_string
+    id showNat' {} lid.2.1 lrev.2.1 lid.2.2 lrev.2.2 exBad
 
 end Commands
 end Okane.C13
